@@ -30,6 +30,7 @@ from . import register
 SRC = "nipy/algorithms/registration/affine.py"
 SRC_CHAIN = "nipy/algorithms/registration/chain_transform.py"
 SRC_TRANSFORM = "nipy/algorithms/registration/transform.py"
+SRC_POLY = "nipy/algorithms/registration/polyaffine.py"
 
 
 class Unsupported(Exception):
@@ -590,6 +591,110 @@ def generic_compose(cls):
     return gex(lam.body)
 
 
+# ------------------------------------------------------------------ PolyAffine.compose / left_compose
+def _generic_guard(st, first, second):
+    """if not hasattr(other, 'as_affine'): return Transform(<first>.apply).compose(<second>)"""
+    if not (isinstance(st, ast.If) and isinstance(st.test, ast.UnaryOp) and isinstance(st.test.op, ast.Not)
+            and _call(st.test.operand, "hasattr", 2) and _name(st.test.operand.args[0], "other")
+            and _const(st.test.operand.args[1], "as_affine") and not st.orelse and len(st.body) == 1
+            and isinstance(st.body[0], ast.Return)):
+        raise Unsupported("polyaffine: generic guard")
+    r = st.body[0].value
+    if not (isinstance(r, ast.Call) and isinstance(r.func, ast.Attribute) and r.func.attr == "compose" and len(r.args) == 1
+            and _name(r.args[0], second) and _call(r.func.value, "Transform", 1) and _attr(r.func.value.args[0], first, "apply")):
+        raise Unsupported("polyaffine: generic fallback")
+
+
+def _is_other_aff(n, env):
+    return (isinstance(n, ast.Call) and _attr(n.func, "other", "as_affine") and not n.args) or \
+        (isinstance(n, ast.Name) and env.get(n.id) == "other_aff")
+
+
+def _ctor(n):
+    """self.__class__(self.centers, <affines>, self.sigma[, glob_affine=<g>]) -> (affines node, glob node or None)"""
+    if not (isinstance(n, ast.Call) and _attr(n.func, "self", "__class__") and len(n.args) == 3
+            and _attr(n.args[0], "self", "centers") and _attr(n.args[2], "self", "sigma")):
+        raise Unsupported("polyaffine: constructor call")
+    g = None
+    for k in n.keywords:
+        if k.arg != "glob_affine":
+            raise Unsupported("polyaffine: constructor keyword " + str(k.arg))
+        g = k.value
+    return n.args[1], g
+
+
+def polyaffine(cls):
+    meths = {s.name: s for s in cls.body if isinstance(s, ast.FunctionDef)}
+    # compose
+    body = _strip_doc(meths["compose"].body)
+    if len(body) != 3:
+        raise Unsupported("PolyAffine.compose length")
+    _generic_guard(body[0], "self", "other")
+    st = body[1]
+    if not (isinstance(st, ast.If) and isinstance(st.test, ast.Compare) and _attr(st.test.left, "self", "glob_affine")
+            and len(st.test.ops) == 1 and isinstance(st.test.ops[0], ast.Is) and _const(st.test.comparators[0], None)
+            and len(st.body) == 1 and len(st.orelse) == 1):
+        raise Unsupported("PolyAffine.compose: glob_affine is None test")
+    a, b = st.body[0], st.orelse[0]
+    if not (isinstance(a, ast.Assign) and _name(a.targets[0], "glob_affine") and _is_other_aff(a.value, {})):
+        raise Unsupported("PolyAffine.compose: None branch")
+    if not (isinstance(b, ast.Assign) and _name(b.targets[0], "glob_affine") and _modcall(b.value, "np", "dot", 2)):
+        raise Unsupported("PolyAffine.compose: product branch")
+    x, y = b.value.args
+    if _attr(x, "self", "glob_affine") and _is_other_aff(y, {}):
+        self_left = True
+    elif _attr(y, "self", "glob_affine") and _is_other_aff(x, {}):
+        self_left = False
+    else:
+        raise Unsupported("PolyAffine.compose: product operands")
+    if not isinstance(body[2], ast.Return):
+        raise Unsupported("PolyAffine.compose: return")
+    affs, g = _ctor(body[2].value)
+    if not (isinstance(affs, ast.Call) and _attr(affs.func, "self", "affines") and not affs.args and _name(g, "glob_affine")):
+        raise Unsupported("PolyAffine.compose: constructor arguments")
+    # left_compose
+    body = _strip_doc(meths["left_compose"].body)
+    if len(body) != 4:
+        raise Unsupported("PolyAffine.left_compose length")
+    _generic_guard(body[0], "other", "self")
+    env = {}
+    st = body[1]
+    if not (isinstance(st, ast.Assign) and isinstance(st.targets[0], ast.Name) and _is_other_aff(st.value, {})):
+        raise Unsupported("PolyAffine.left_compose: other_affine")
+    env[st.targets[0].id] = "other_aff"
+    st = body[2]
+    if not (isinstance(st, ast.Assign) and _name(st.targets[0], "affines") and isinstance(st.value, ast.ListComp)
+            and len(st.value.generators) == 1 and _modcall(st.value.elt, "np", "dot", 2)):
+        raise Unsupported("PolyAffine.left_compose: affines list")
+    gen = st.value.generators[0]
+    if not (isinstance(gen.target, ast.Name) and _call(gen.iter, "range", 1) and _call(gen.iter.args[0], "len", 1)
+            and _attr(gen.iter.args[0].args[0], "self", "centers") and not gen.ifs):
+        raise Unsupported("PolyAffine.left_compose: comprehension")
+    iv = gen.target.id
+
+    def is_local(n):
+        return isinstance(n, ast.Call) and _attr(n.func, "self", "affine") and len(n.args) == 1 and _name(n.args[0], iv)
+    x, y = st.value.elt.args
+    if _is_other_aff(x, env) and is_local(y):
+        other_left = True
+    elif _is_other_aff(y, env) and is_local(x):
+        other_left = False
+    else:
+        raise Unsupported("PolyAffine.left_compose: product operands")
+    if not isinstance(body[3], ast.Return):
+        raise Unsupported("PolyAffine.left_compose: return")
+    affs, g = _ctor(body[3].value)
+    if not _name(affs, "affines"):
+        raise Unsupported("PolyAffine.left_compose: constructor affines")
+    if g is None:
+        keeps = False
+    elif _attr(g, "self", "glob_affine"):
+        keeps = True
+    else:
+        raise Unsupported("PolyAffine.left_compose: glob_affine argument")
+    return self_left, other_left, keeps
+
+
 def _nl(xs):
     return "[" + "; ".join(str(int(x)) for x in xs) + "]"
 
@@ -674,6 +779,13 @@ def translate(repo):
             gen = generic_compose(n)
     if gen is None:
         raise Unsupported("class Transform not found")
+    ptree = ast.parse((repo / SRC_POLY).read_text())
+    pa = None
+    for n in ptree.body:
+        if isinstance(n, ast.ClassDef) and n.name == "PolyAffine":
+            pa = polyaffine(n)
+    if pa is None:
+        raise Unsupported("class PolyAffine not found")
 
     o = ["(* GENERATED from %s and %s by harness/translate/affineclasses.py - do not edit *)" % (SRC, SRC_CHAIN),
          "From Coq Require Import String List.", "From NV.Lib Require Import C08Base.", "Import ListNotations.",
@@ -712,6 +824,11 @@ def translate(repo):
     o.append("Definition src_chain : cexpr := %s." % chain)
     o.append("(* Transform.compose: lambda body (%s) *)" % SRC_TRANSFORM)
     o.append("Definition src_generic_compose : gexpr := %s." % gen)
+    o.append("(* PolyAffine.compose: new glob_affine = np.dot(self.glob_affine, other) (true) or the reverse; left_compose: local")
+    o.append("   affines np.dot(other, self.affine(i)) (true) or the reverse; whether the constructor call passes glob_affine=self.glob_affine (%s) *)" % SRC_POLY)
+    o.append("Definition src_pa_compose_self_left : bool := %s." % ("true" if pa[0] else "false"))
+    o.append("Definition src_pa_left_other_left : bool := %s." % ("true" if pa[1] else "false"))
+    o.append("Definition src_pa_left_keeps_glob : bool := %s." % ("true" if pa[2] else "false"))
     meta = {"source": [SRC, SRC_CHAIN], "classes": {r[0]: r[1] for r in rows},
             "compose_chain": branches, "compose_default": default, "from_matrix44_owner": fx_owner}
     return "\n".join(o) + "\n", meta
